@@ -135,6 +135,19 @@ fn run_packed(kv: &BTreeMap<String, String>) -> i32 {
             let r3 = tup(srch.find_in(&mix, Span { start: s, end: e }));
             report("packed span vs sub-slice vs outside bytes", &(r1, r3), &(r2, r2), r1 != r2 || r1 != r3)
         }
+        "pk_teddy" if !kv.contains_key("w") => {
+            // a pointer/bounds check failed without solver values (forming or dereferencing an
+            // out-of-bounds pointer): repeat the searches in a child process on a haystack flush
+            // against inaccessible pages; a fault there is the out-of-bounds access
+            let exe = std::env::current_exe().expect("own path");
+            let st = std::process::Command::new(exe)
+                .args(["guardteddy", kv.get("case").unwrap(), kv.get("len").unwrap(), kv.get("off").unwrap(), kv.get("pad").unwrap()])
+                .status()
+                .expect("spawn guard child");
+            let bad = !st.success();
+            report("Teddy on a haystack flush against inaccessible pages (all window contents over the pattern bytes)",
+                   &format!("child ended with {:?}", st), &"no access outside the haystack, results equal to the definition", bad)
+        }
         "pk_teddy" => {
             let (len, off, pad) = (us("len"), us("off"), us("pad") as u8);
             let w = unhex(kv.get("w").unwrap());
@@ -788,6 +801,67 @@ fn replay_pk_prim() -> i32 {
         return report("packed verification primitives on guard-page-backed memory", &format!("child ended with {:?}", st), &"no access outside haystack/needle", true);
     }
     report("packed verification primitives", &"agree; no fault on guard-page-backed memory", &"bytewise prefix test", false)
+}
+
+/// Child of the `pk_teddy` memory replay: args = case line, len, off, pad.
+pub fn guardteddy(args: &[String]) -> i32 {
+    use aho_corasick::Span;
+    extern "C" {
+        fn mmap(addr: *mut u8, len: usize, prot: i32, flags: i32, fd: i32, off: i64) -> *mut u8;
+        fn mprotect(addr: *mut u8, len: usize, prot: i32) -> i32;
+    }
+    const PAGE: usize = 4096;
+    let spec = crate::parse_packed(&args[0]);
+    let srch = crate::build_packed(&spec).expect("packed searcher");
+    let pats: Vec<&[u8]> = spec.pats.iter().map(|p| &p[..]).collect();
+    let (len, off, pad): (usize, usize, u8) = (args[1].parse().unwrap(), args[2].parse().unwrap(), args[3].parse::<usize>().unwrap() as u8);
+    let mut alpha: Vec<u8> = vec![pad];
+    for p in &spec.pats {
+        for &b in p.iter() {
+            if !alpha.contains(&b) && alpha.len() < 7 {
+                alpha.push(b);
+            }
+        }
+    }
+    let w = 4usize.min(len - off);
+    unsafe {
+        let p = mmap(std::ptr::null_mut(), 3 * PAGE, 3, 0x22, -1, 0);
+        assert!(!p.is_null() && p as isize != -1, "mmap failed");
+        assert!(mprotect(p, PAGE, 0) == 0 && mprotect(p.add(2 * PAGE), PAGE, 0) == 0, "mprotect failed");
+        let data = p.add(PAGE);
+        for flush_end in [true, false] {
+            let h = if flush_end { data.add(PAGE - len) } else { data };
+            let mut idx = vec![0usize; w];
+            loop {
+                for i in 0..len {
+                    *h.add(i) = pad;
+                }
+                for i in 0..w {
+                    *h.add(off + i) = alpha[idx[i]];
+                }
+                let hay = std::slice::from_raw_parts(h, len);
+                let got = tup(srch.find_in(hay, Span { start: 0, end: len }));
+                let want = oracle::leftmost(&pats, hay, 0, len, spec.kind, false, false);
+                if got != want {
+                    println!("Teddy find_in: observed={:?} specified={:?} on {:?}", got, want, hay);
+                    return 3;
+                }
+                let mut k = 0;
+                while k < w {
+                    idx[k] += 1;
+                    if idx[k] < alpha.len() {
+                        break;
+                    }
+                    idx[k] = 0;
+                    k += 1;
+                }
+                if k == w {
+                    break;
+                }
+            }
+        }
+    }
+    0
 }
 
 /// Child of `replay_pk_prim`: haystack and needle flush against PROT_NONE pages.
